@@ -241,6 +241,11 @@ pub fn search(pid: &str) -> String {
                     }
                 }
                 "C02" => {
+                    // budget 0 means unlimited: it must agree with a budget far above the cost
+                    let roomy = run(&t, base, 1u64 << 40);
+                    if roomy.ok && roomy != o {
+                        return found(pid, &name, &t, format!("flags {:#x}: budget 2^40 gives {:?} but budget 0 (unlimited) gives {:?}", base.bits(), roomy, o));
+                    }
                     if o.ok && o.cost > 1 {
                         let exact = run(&t, base, o.cost);
                         let below = run(&t, base, o.cost - 1);
@@ -249,6 +254,13 @@ pub fn search(pid: &str) -> String {
                         }
                         if below.ok || !below.err.contains("cost") {
                             return found(pid, &name, &t, format!("flags {:#x}: budget {} (cost - 1) gives {:?}", base.bits(), o.cost - 1, below));
+                        }
+                        // upward closure: every larger budget (and 0 = unlimited) gives the same outcome
+                        for b in [o.cost + 1, 2 * o.cost, 1u64 << 40, u64::MAX - 1000, u64::MAX - 1, u64::MAX] {
+                            let x = run(&t, base, b);
+                            if x != o {
+                                return found(pid, &name, &t, format!("flags {:#x}: budget 0 gives {:?} but the larger budget {} gives {:?}", base.bits(), o, b, x));
+                            }
                         }
                     }
                 }
@@ -267,6 +279,33 @@ pub fn search(pid: &str) -> String {
                     }
                 }
                 _ => {}
+            }
+        }
+    }
+    // ---- nesting depth of softfork guards (C31): with LIMIT_SOFTFORK 20 nested guards run, 21 fail; without the flag both run
+    if pid == "C31" {
+        for base in [ClvmFlags::empty(), ClvmFlags::NEW_COST_MODEL] {
+            for ext in [0u64, 1] {
+                let mut t = q(n(42));
+                for depth in 1..=22u32 {
+                    t = fix_softfork(&op(36, vec![q(n(1000)), q(n(ext)), q(t.clone()), q(nil())]), base);
+                    if depth < 19 {
+                        continue;
+                    }
+                    cases += 1;
+                    let free = run(&t, base, 0);
+                    let lim = run(&t, base | ClvmFlags::LIMIT_SOFTFORK, 0);
+                    if !free.ok {
+                        break; // the corpus program itself could not be built for this flag set
+                    }
+                    let name = format!("{depth} nested softfork guards, extension {ext}");
+                    if depth <= 20 && lim != free {
+                        return found(pid, &name, &t, format!("flags {:#x}: without LIMIT_SOFTFORK {:?}, with it {:?}", base.bits(), free, lim));
+                    }
+                    if depth > 20 && (lim.ok || !lim.err.contains("depth")) {
+                        return found(pid, &name, &t, format!("flags {:#x} | LIMIT_SOFTFORK: {} nested guards give {:?} (expected: softfork stack depth exceeded)", base.bits(), depth, lim));
+                    }
+                }
             }
         }
     }
